@@ -92,6 +92,9 @@ def run(sid, checks):
         for c in checks:
             rc, o = sh(f'./check.sh {c} quick', cwd='/verif', timeout=7200)
             lines = [l for l in o.splitlines() if l.startswith(('VIOLATION', 'INCONCLUSIVE', 'UNCONFIRMED', 'KNOWN-FINDING'))]
+            if c in meta['checks'] and c not in meta.setdefault('first_contact', {}):
+                # the first run against this change is kept: it shows what the checks caught before they were strengthened for it
+                meta['first_contact'][c] = meta['checks'][c]
             meta['checks'][c] = {'tier': 'quick', 'exit': rc, 'detected': rc == 1,
                                  'lines': [l[:400] for l in lines[:6]], 'summary': o.strip().splitlines()[-1][:300] if o.strip() else ''}
             print(sid, c, 'exit', rc, *[l[:300] for l in lines[:3]], sep='\n  ')
